@@ -20,6 +20,9 @@ try:  # the replay / audit paths run without crosshair being active, but it is i
         return None
 
     _core.consider_shortcircuit = _never
+    # keep the builtin frozenset: CrossHair's LinearSet stand-in deep-realises its contents when it
+    # is hashed (the repository hashes `(args, frozenset(kwargs.items()))` as a dict key)
+    _core._PATCH_REGISTRATIONS.pop(frozenset, None)
     from crosshair.util import CrossHairInternal, IgnoreAttempt, UnexploredPath  # noqa
     import crosshair.util as _cu
 
@@ -49,3 +52,23 @@ def reraise_engine(e: BaseException = None) -> None:
         e = sys.exc_info()[1]
     if e is not None and is_engine_exc(e):
         raise e
+
+
+def tracing() -> bool:
+    """True while CrossHair is executing the current code symbolically (False in concrete replays).
+    Harnesses build their human-readable LAST_INFO only when this is False: repr()/str() of a
+    symbolic value would realise it and fork the path on every concrete value."""
+    try:
+        from crosshair.tracers import is_tracing
+        return bool(is_tracing())
+    except Exception:  # noqa
+        return False
+
+
+def pick(i, n):
+    """Concretise a symbolic index 0 <= i < n by branching (the engine forks once per value), so that
+    table look-ups yield ordinary concrete objects instead of symbolic unions."""
+    for c in range(n):
+        if i == c:
+            return c
+    raise IndexError(i)
